@@ -103,6 +103,16 @@ func (p *pred[E]) eval(d []E) bool {
 	return false
 }
 
+func (p *pred[E]) nTargets() int {
+	switch p.kind {
+	case "any":
+		return len(p.targets)
+	case "or":
+		return p.p.nTargets() + p.q.nTargets()
+	}
+	return 0
+}
+
 func (p *pred[E]) lit() string {
 	switch p.kind {
 	case "true":
@@ -267,6 +277,15 @@ func pack(s []int64) uint64 {
 		a = a<<10 + uint64(x) + 1
 	}
 	return a
+}
+
+// inverse of pack for up to six positions below 1023
+func unpack(a uint64) []int64 {
+	var r []int64
+	for ; a != 0; a >>= 10 {
+		r = append([]int64{int64(a&1023) - 1}, r...)
+	}
+	return r
 }
 
 func mixc(h uint64, s []int64) uint64 {
@@ -556,7 +575,7 @@ func oracle[E elem](sc *scenario[E], o *runObs[E]) []verdict {
 			if seen[k] == 2 && dup == "" {
 				dup = fmt.Sprintf("key %x", k)
 				if k != ^uint64(0) {
-					dup = fmt.Sprintf("distance %d, packed positions %x", k>>60, k&(1<<60-1))
+					dup = fmt.Sprintf("distance %d, positions %v", k>>60, unpack(k&(1<<60-1)))
 				}
 			}
 			d := int(k >> 60)
@@ -773,6 +792,12 @@ func emit[E elem](sc *scenario[E], o *runObs[E], kind string) {
 	if o.err != nil && o.comb != nil {
 		vs = append(vs, verdict{"both a result and an error were returned", "pkg/bruteforcer/brute_forcer.go:run"})
 	}
+	// evaluating a one-of-targets predicate costs the model a comparison per target and candidate scanned
+	scanned := 0
+	for _, r := range o.recs {
+		scanned += r.n
+	}
+	cost += float64(scanned) * float64(sc.p.nTargets()) * float64(len(sc.data)) / 2
 	pend = append(pend, &pending{kind: kind, lit: lit, descr: descr, nontriv: sc.wmin <= sc.wmax && total > 0, cost: cost + 1000, verdicts: vs})
 	sc.runs = append(sc.runs, o)
 }
@@ -949,6 +974,113 @@ func small[E elem](c *gal.Ctx, maxLen int, maxTop uint64, kind string) {
 	runScenario(sc, []runCfg{a, b}, kind)
 }
 
+// F2b: byte strings of up to 64 items (the whole range of the property), where bit positions
+// reach 511 and no longer fit into 8 bits.  The window stays at distances <= 2 (C(512,2) = 130816
+// candidates, 13 workers); satisfying values are placed anywhere, and on purpose at positions in the
+// last bytes, in the byte after a power-of-two boundary, and split between a low and a high byte.
+func long[E elem](c *gal.Ctx, kind string) {
+	lens := []int{29, 31, 32, 33, 34, 40, 47, 48, 49, 63, 64}
+	n := lens[c.Rng.Intn(len(lens))]
+	if c.Rng.Intn(3) == 0 {
+		n = 29 + c.Rng.Intn(36)
+	}
+	isz := uint64(1)
+	per := int64(1)
+	if isBytes[E]() {
+		isz, per = 8, 8
+	} else {
+		n = 29 + c.Rng.Intn(36)
+	}
+	sc := &scenario[E]{data: randData[E](c, n), itemSize: isz, tag: kind}
+	total := int64(sc.total())
+	// windows inside 0..2; the expensive distance 2 less often on the longest strings
+	sc.wmin = uint64(c.Rng.Intn(3))
+	sc.wmax = sc.wmin + uint64(c.Rng.Intn(int(3-sc.wmin)))
+	if sc.wmax == 2 && total > 400 && c.Rng.Intn(4) != 0 {
+		sc.wmax = 1
+		if sc.wmin > 1 {
+			sc.wmin = 1
+		}
+	}
+	// a position in item i (bit chosen at random)
+	inItem := func(i int) int64 { return int64(i)*per + c.Rng.Int63n(per) }
+	place := func(d int) []int64 {
+		if d == 0 {
+			return nil
+		}
+		var pos []int64
+		switch c.Rng.Intn(5) {
+		case 0: // all in the last items
+			pos = append(pos, total-1-c.Rng.Int63n(per))
+			for len(pos) < d {
+				pos = append(pos, inItem(n-1-c.Rng.Intn(3)))
+			}
+		case 1: // around the item whose positions no longer fit into 8 bits (and the other power-of-two edges)
+			edge := []int{16, 32, 32, 32, 33, 48}[c.Rng.Intn(6)]
+			if !isBytes[E]() {
+				edge = []int{32, 33, 48}[c.Rng.Intn(3)]
+			}
+			if edge >= n {
+				edge = n - 1
+			}
+			for len(pos) < d {
+				pos = append(pos, inItem(edge-c.Rng.Intn(2)))
+			}
+		case 2: // one low, the rest high
+			pos = append(pos, inItem(c.Rng.Intn(4)))
+			for len(pos) < d {
+				pos = append(pos, inItem(n/2+c.Rng.Intn(n-n/2)))
+			}
+		default:
+			return randPositions(c, total, d)
+		}
+		// distinct and sorted, else draw uniformly
+		sort.Slice(pos, func(i, j int) bool { return pos[i] < pos[j] })
+		for i := 1; i < len(pos); i++ {
+			if pos[i] == pos[i-1] {
+				return randPositions(c, total, d)
+			}
+		}
+		return pos
+	}
+	dOf := func() int {
+		d := int(sc.wmin) + c.Rng.Intn(int(sc.wmax-sc.wmin)+2) // up to one beyond the window
+		if c.Rng.Intn(8) == 0 && sc.wmin > 0 {
+			d = int(sc.wmin) - 1
+		}
+		return d
+	}
+	switch c.Rng.Intn(10) {
+	case 0:
+		sc.p = &pred[E]{kind: "false"}
+	case 1, 2, 3, 4, 5:
+		sc.p = &pred[E]{kind: "any"}
+		for i, k := 0, []int{1, 1, 2, 3}[c.Rng.Intn(4)]; i < k; i++ {
+			sc.p.targets = append(sc.p.targets, targetAt(sc.data, place(dOf())))
+		}
+	case 6, 7: // a constraint on single items: many satisfying values
+		sc.p = &pred[E]{kind: "at"}
+		for _, ps := range place(1 + c.Rng.Intn(2)) {
+			idx := int(ps / per)
+			var a E
+			switch av := any(&a).(type) {
+			case *bool:
+				*av = !any(sc.data[idx]).(bool)
+			case *byte:
+				*av = any(sc.data[idx]).(byte) ^ (1 << uint(ps%8))
+			}
+			sc.p.at = append(sc.p.at, atC[E]{idx, a})
+		}
+	default:
+		sc.p = randPred(c, sc.data, total, []int{0, 1, 1, 2, 2, 3})
+	}
+	a, b := randCfg(c), randCfg(c)
+	if c.Rng.Intn(20) == 0 {
+		randInit(c, &a)
+	}
+	runScenario(sc, []runCfg{a, b}, kind)
+}
+
 // F3/F4: several workers at the top distance of the window; satisfying values are placed at
 // the first / last ID of the workers' slices of the design configuration
 func multi[E elem](c *gal.Ctx, n int, wmin, wmax uint64, design runCfg, variant string, others []runCfg, kind string) {
@@ -1073,17 +1205,30 @@ func main() {
 			small[byte](c, 6, 3, "medium-bytes")
 		}
 	}
+	// ---- F2b: long strings (bytes of 29..64 items = up to 512 bit positions; bools of 29..64 items), distances <= 2 ----
+	for i, n := 0, c.Scale(32, 240); i < n; i++ {
+		if c.Rng.Intn(6) == 0 {
+			long[bool](c, "long-bools")
+		} else {
+			long[byte](c, "long-bytes")
+		}
+	}
 	// ---- F3: several workers ----
 	spaces := []space{
 		{false, 29, 4, 4}, {false, 32, 3, 4}, {false, 36, 4, 4}, {false, 40, 2, 4}, {false, 46, 4, 4},
 		{false, 51, 3, 3}, {false, 57, 1, 3}, {false, 64, 3, 3}, {false, 64, 0, 3},
 		{true, 4, 4, 4}, {true, 5, 4, 4}, {true, 8, 3, 3}, {true, 8, 2, 3}, {true, 26, 2, 2}, {true, 28, 1, 2},
+		// more than 32 bytes: 3..13 workers at distance 2, positions up to 511
+		{true, 33, 2, 2}, {true, 41, 1, 2}, {true, 64, 2, 2}, {true, 64, 0, 2},
 	}
 	variants := []string{"none", "first-of-one", "last-of-one", "first-of-all", "last-of-all", "ends", "boundary", "lower-too", "below-window", "many"}
 	for _, sp := range spaces {
 		perSpace := c.Scale(3, 10)
 		if sp.n*map[bool]int{false: 1, true: 8}[sp.bytes] >= 40 && sp.wmax == 4 {
 			perSpace = c.Scale(1, 4) // 90000+ combinations
+		}
+		if sp.bytes && sp.n >= 50 {
+			perSpace = c.Scale(1, 3) // 100000+ combinations over 400+ bit positions
 		}
 		for k := 0; k < perSpace; k++ {
 			variant := variants[c.Rng.Intn(len(variants))]
@@ -1208,6 +1353,7 @@ func main() {
 	}
 	c.Finish("bruteforcer.BruteForce on []bool (itemSize 1, 0) and []byte (itemSize 0..8): random data of 0..64 items, windows 0<=min<=max<=4 and min>max, " +
 		"predicates false/true/one-of-targets/item-constraints/or, satisfying values at random places and at the first/last combination ID of the worker slices; " +
+		"byte and bool strings of 29..64 items at distances <= 2 with satisfying values in the last items, around items 16/32/48 (bit positions 256.. need more than 8 bits) and split low/high; " +
 		"GOMAXPROCS in {1,2,3,4,7,16,61,64}, maxConcurrency in {0,1,2,5}, initFunc failing never/always/on the n-th call, scheduling jitter in checkFunc; " +
 		"spaces of 20000..635376 combinations give 2..63 workers; a case is non-trivial when min<=max and the data has at least one bit; distinct = distinct Gallina literal")
 }
